@@ -325,6 +325,40 @@ for (pre, tgt, T, mt) in [('sphere', SP, SPH, 'SphereS'), ('cone', CO, CON, 'Con
       'Solid', ['C02'])
 
 
+
+# ------------------------------------------------------------------ polygon (vertex lists)
+LP2 = ('vs', 'List V2', 'Point2D', None)
+LP3 = ('vs', 'List V3', 'Point3D', None)
+POLY = 'geometry2d.polygon:Polygon2D.'
+K('polygon2d_area', POLY + 'area', [LP2], 'S', 'Poly', ['C01', 'C03', 'C16'],
+  self_from={'cls': 'Polygon2D', 'slots': {'_vertices': 'vs'}})
+K('polygon2d_is_clockwise', POLY + 'is_clockwise', [LP2], 'B', 'Poly', ['C01', 'C03', 'C06'],
+  self_from={'cls': 'Polygon2D', 'slots': {'_vertices': 'vs'}})
+K('polygon2d_perimeter', POLY + 'perimeter', [LP2], 'S', 'Poly', ['C01', 'C03'],
+  self_from={'cls': 'Polygon2D', 'slots': {'_vertices': 'vs'}})
+K('polygon2d_are_clockwise', POLY + '_are_clockwise', [LP2], 'B', 'Poly', ['C01', 'C06'])
+
+
+
+# ------------------------------------------------------------------ Polygon2D cache transfer
+PC = ('Poly2C', 'Polygon2D')
+K('polygon2d_reverse', POLY + 'reverse', [p('s', PC)], 'Poly2C', 'Cache', ['C03'])
+K('polygon2d_move', POLY + 'move', [p('s', PC), p('mv', W2)], 'Poly2C', 'Cache', ['C03', 'C02'])
+K('polygon2d_rotate', POLY + 'rotate', [p('s', PC), S('angle', 'angle'), p('o', P2)],
+  'Poly2C', 'Cache', ['C03', 'C02'])
+K('polygon2d_reflect', POLY + 'reflect', [p('s', PC), p('n', W2, 'unit'), p('o', P2)],
+  'Poly2C', 'Cache', ['C03', 'C02'])
+K('polygon2d_scale', POLY + 'scale', [p('s', PC), S('factor', 'factor'), p('o', P2)],
+  'Poly2C', 'Cache', ['C03', 'C02'])
+K('polygon2d_scale_world', POLY + 'scale', [p('s', PC), S('factor', 'factor')],
+  'Poly2C', 'Cache', ['C03', 'C02'])
+K('polygon2d_read_area', POLY + 'area', [p('s', PC)], 'Tup S Poly2C', 'Cache', ['C03'],
+  ret_self=True)
+K('polygon2d_read_is_clockwise', POLY + 'is_clockwise', [p('s', PC)], 'Tup B Poly2C', 'Cache',
+  ['C03'], ret_self=True)
+K('polygon2d_copy', POLY + '__copy__', [p('s', PC)], 'Poly2C', 'Cache', ['C03', 'C13'])
+
+
 def all_kernels():
     import copy
     return copy.deepcopy(KERNELS)
